@@ -245,7 +245,7 @@ func TestC07(t *testing.T) {
 	}
 	// Crash images taken while a call is suspended between its sub-steps.
 	if !t.Failed() {
-		runSuspCampaign(t, ev, budget(1600, 4000), true, func(v *Violation) bool { return strings.HasPrefix(v.Signature, "fsck|") })
+		runSuspCampaign(t, ev, budget(3200, 6000), true, func(v *Violation) bool { return strings.HasPrefix(v.Signature, "fsck|") })
 	}
 	ev.finish(t)
 }
